@@ -2319,7 +2319,8 @@ fn compile_fn(goenv: &GlobalGoEnv, gensym: &Gensym, f: anf::Fn) -> goast::Fn {
 
     let go_ret_ty = tast_ty_to_go_type(&f.ret_ty);
 
-    let is_entry = f.name == "main" || f.name.ends_with("::main");
+    // the entry point is Main's `main`; a function `main` of another package is an ordinary function
+    let is_entry = f.name == "main" || f.name == "Main::main";
     let patched_name = if is_entry {
         "main0".to_string()
     } else {
